@@ -46,8 +46,8 @@ func cntH(q *Query, cur Map, o *FunctionOptions, args []any) (any, error) {
 // returns; ONCE runs once; under every (preemption-bounded) schedule.
 func H_C14_strategies() {
 	n := verif.Choose("rows", maxRows(2, 3)+1)
-	form := verif.Choose("form", 10)
-	if form >= 4 && n > 1+verif.Tier() {
+	form := verif.Choose("form", 12)
+	if form >= 4 && form != 9 && n > 1+verif.Tier() {
 		verif.Assume(false) // nested forms: one row (two in the thorough tier)
 	}
 	callsF, callsG, callsH, doneF, doneG = 0, 0, 0, 0, 0
@@ -87,6 +87,12 @@ func H_C14_strategies() {
 	case 9:
 		// an ASYNC call started by AWAIT (after Exec's own wait)
 		sql = "SELECT a, AWAIT(ASYNC.vf(a)) AS v FROM t"
+	case 10:
+		// the same qualified call twice in one select list
+		sql = "SELECT a, ASYNC.vf(a) AS v, ASYNC.vf(a) AS w FROM t"
+	case 11:
+		// qualified and unqualified calls mixed
+		sql = "SELECT a, ASYNC.vf(a) AS v, vg(a) AS u, SPINASYNC.vg(a) FROM t"
 	}
 	got, ok := runQuery(doc, sql)
 	if !ok {
@@ -100,6 +106,20 @@ func H_C14_strategies() {
 		var want []any
 		for _, r := range rows {
 			want = append(want, Map{"a": r["a"], "v": f64of(r["a"]) + 1})
+		}
+		verif.Assert(verif.Eq(got, want), "async-equals-sync")
+	case 10:
+		verif.Assert(callsF == 2*n && doneF == 2*n, "async-called-once-per-row-and-completed")
+		var want []any
+		for _, r := range rows {
+			want = append(want, Map{"a": r["a"], "v": f64of(r["a"]) + 1, "w": f64of(r["a"]) + 1})
+		}
+		verif.Assert(verif.Eq(got, want), "async-equals-sync")
+	case 11:
+		verif.Assert(callsF == n && doneF == n && callsG == 2*n && doneG == 2*n, "async-called-once-per-row-and-completed")
+		var want []any
+		for _, r := range rows {
+			want = append(want, Map{"a": r["a"], "v": f64of(r["a"]) + 1, "u": r["a"]})
 		}
 		verif.Assert(verif.Eq(got, want), "async-equals-sync")
 	case 1:
